@@ -277,7 +277,7 @@ def case_line(c, ks):
     return '%s %r %d %s %s %s' % (c['op'], float(c['p1']), int(c['p2']), hexwkb(c['A']), hexwkb(c['B']) if c['B'] is not None else '-', ks)
 
 
-# ===================================================================== static inventory (regenerated from /repo's source on every run)
+# ===================================================================== static inventory (regenerated from the source tree REPO on every run)
 # A small C++ reader: comments / literals / preprocessor lines blanked (line numbers kept), `#if ...DEBUG...` / `#if 0` regions dropped,
 # brace-structured scan for namespaces, classes, function definitions; per function: call names (with receiver / qualifier kind),
 # checkpoint macros, try/catch clauses.  Name-based call graph (over-approximation, resolution rules in `resolve`).
@@ -723,7 +723,7 @@ def coq_str(x): return '"%s"' % x.replace('"', '""')
 
 
 def write_inventory_v(inv, exempt_keys, path):
-    L = ['(* GENERATED by props/C14.py from the source of /repo on every run -- do not edit, not committed.',
+    L = ['(* GENERATED by props/C14.py from the source of the library tree on every run -- do not edit, not committed.',
          '   %d files, %d function definitions scanned; %d checkpoint sites, %d catch clauses, %d C API entry points *)'
          % (inv['nfiles'], inv['nfuncs'], len(inv['sites']), len(inv['catches']), len(inv['entries'])),
          'From Coq Require Import List String ZArith Bool.', 'From GeosV.C14 Require Import CatchDefs.', 'Import ListNotations.',
